@@ -136,6 +136,14 @@ def make(case):
         off = far(rng, n, dist)
         x0 = xs + off
         side = "infeasible"
+        if rng.random() < 0.3:
+            # a redundant but consistent row (a multiple of an earlier one),
+            # not in the last position
+            i = int(rng.integers(m))
+            t = float(rng.choice([2.0, -1.0, 0.5]))
+            pos = int(rng.integers(0, m))
+            a = np.insert(a, pos, t * a[i], axis=0)
+            b = np.insert(b, pos, t * b[i])
         spec["lin"] = [{"A": a.tolist(), "lb": b.tolist(), "ub": b.tolist()}]
         spec["con_kind"] = "lin"
     elif fam == "interval":
@@ -257,9 +265,25 @@ def run_case(case):
             if infeas:
                 zero_normal["n"] += 1
 
+    lm_max = {"v": 0.0}
+
+    def on_mut(run, tr, what, args, out):
+        if what == "set_multipliers":
+            for nm in ("_lm_linear_eq", "_lm_linear_ub", "_lm_nonlinear_eq",
+                       "_lm_nonlinear_ub"):
+                a = getattr(tr, nm, None)
+                if a is not None and np.size(a):
+                    lm_max["v"] = max(lm_max["v"], float(np.max(np.abs(a))))
+
     def setup(r, rec):
         r.on("sub", on_sub)
+        r.on("tr.mut", on_mut)
 
+    rank_deficient = False
+    for lc in spec.get("lin", []):
+        a_ = np.asarray(lc["A"], dtype=float)
+        if a_.size and np.linalg.matrix_rank(a_) < a_.shape[0]:
+            rank_deficient = True
     rec = mrun.run(spec, setup=setup)
     viols = []
     counts = e2e.base_counts(rec)
@@ -276,7 +300,12 @@ def run_case(case):
         tv, slack = rec.true_maxcv(x)
         tol = math.sqrt(np.finfo(float).eps)
         mech = "plain"
-        if zero_normal["n"] > 0 and dev > TAU[fam]:
+        if rank_deficient and lm_max["v"] > 1e10:
+            # redundant (consistent) equality rows: the least-squares
+            # multipliers pick up an arbitrary null-space component of size
+            # 1/eps, the penalty parameter follows them
+            mech = "multipliers_explode_redundant_rows"
+        elif zero_normal["n"] > 0 and dev > TAU[fam]:
             mech = "normal_step_zero_from_infeasible_origin"
         elif res.status in (5, 6) and dev <= TAU[fam]:
             mech = "budget_exhausted_at_accurate_point"
@@ -304,7 +333,8 @@ def run_case(case):
                            f"x*={xs.tolist()}]",
                            mechanism=mech, family=fam, deviation=dev,
                            status=int(res.status), nfev=int(res.nfev),
-                           zero_normal_steps=zero_normal["n"]))
+                           zero_normal_steps=zero_normal["n"],
+                           largest_multiplier=lm_max["v"]))
     nt = None
     if active >= 1 or side != "feasible":
         nt = f"{fam}|n{spec['n']}|a{active}|{side}|" + str(
